@@ -27,6 +27,12 @@ var props = []*common.Prop{
 			Gen:    func(r *simrt.Rand, tier string, idx int) interface{} { return genKACase(r, tier) },
 			Run:    runKA,
 			Shrink: shrinkKA}}),
+	common.Combine("C05",
+		common.Part{Name: "jobs", P: core.Prop("C05"), Weight: 7},
+		common.Part{Name: "stop", Weight: 1, P: &common.Prop{ID: "C05", New: func() interface{} { return &HTTPStopCase{} },
+			Gen:    func(r *simrt.Rand, tier string, idx int) interface{} { return genHTTPStopCase(r, tier) },
+			Run:    runHTTPStopForJobs,
+			Shrink: shrinkHTTPStop}}),
 	common.Combine("C18",
 		common.Part{Name: "core", P: core.Prop("C18"), Weight: 3},
 		common.Part{Name: "http", Weight: 1, P: &common.Prop{ID: "C18", New: func() interface{} { return &HTTPStopCase{} },
